@@ -2,6 +2,34 @@
 import re
 
 PROPS = {
+    "C05": {
+        "modules": ["Ark.Props.C05"],
+        "claimed": False,
+        "rule": "one op line per MSM entry point / digit recoding / accumulator history; distinct = distinct op line; non-trivial = non-empty inputs with scalars outside {0,1}",
+        "exhaustive": ["all (bases, scalars) on the order-7 toy curve (single window); every add/finalize history of length <= 6 x buffer sizes 0..9"],
+        "partial": [],
+        "assumptions": ["group with NEGATION_IS_CHEAP = false is a harness wrapper (no shipped group has it)", "big-integer scalars >= 2^(c*ceil(bits/c)) are outside the property's scalar domain (verdict note)"],
+    },
+    "C13": {
+        "modules": ["Ark.Props.C13"],
+        "claimed": False,
+        "rule": "one op line per expander / hash_to_field / map_to_curve / hash call; distinct = distinct op line; non-trivial = non-empty message or u outside {0,1}",
+        "exhaustive": ["all u of the toy SWU (F_127, F_49), WB and Elligator (F_101, F_127) configurations"],
+        "partial": [],
+        "assumptions": ["supported suites = BLS12-381 G1/G2 with SHA-256 (L = 64); DefaultFieldHasher with L != 64 pads Z_pad with L bytes (note, outside the supported suites)"],
+    },
+    "C16": {
+        "modules": ["Ark.Props.C16"],
+        "crate": "harness2",
+        "gen": {"kind": "consts"},
+        "harness": False,
+        "technique": "translator: constants dumped from the compiled current tree -> generated Lean definitions; Bool checkers evaluated by the Lean kernel (decide +kernel) on every shipped configuration, with hand-proved meaning lemmas",
+        "level_text": "Every shipped configuration (181 configurations of 34 crates/modules) is re-dumped from the compiled current tree through the public traits on every run, rendered as Lean definitions, and every checker (Montgomery constants, two-adicity, generator non-residue, roots of unity of exact order, extension non-residues, Frobenius tables, generators on curve of order r, cofactor inverse, GLV / twist / isogeny / pairing parameters) is decided by the Lean kernel on it; the quantifier is this finite table, so kernel evaluation is a proof. Meaning lemmas relate each checker to the documented mathematical statement.",
+        "rule": "one generated theorem per (configuration, checker)",
+        "exhaustive": ["the complete table of shipped configurations"],
+        "partial": [],
+        "assumptions": ["primality of moduli and group orders (hypotheses of the meaning lemmas)", "the translator (harness2/src/bin/c16.rs + tools/gen_consts.py) dumps what the traits expose; cross-checked against the literal strings in the sources", "curve orders (#E = h*r) are not decidable by evaluation and are not claimed"],
+    },
     "C19": {
         "modules": ["Ark.Props.C19"],
         "claimed": False,
@@ -28,7 +56,6 @@ PROPS = {
     },
     "C20": {
         "modules": ["Ark.Props.C20"],
-        "claimed": False,
         "rule": "one op line per compile-time literal (MontFp!/BigInt! in const items of a generated grid), run-time twin (from_sign_and_limbs, FromStr) or derive-macro fact; distinct = distinct op line; non-trivial = literal denotes a value outside {0,1}",
         "exhaustive": [],
         "partial": [],
